@@ -310,8 +310,10 @@ def norm_full_at(repo: Repo, gen: FunctionInfo, k: int) -> Tuple[Dict[str, Optio
     """For component ``k`` of the tuple returned by a normalisation-constant generator:
     pos -> is the constant there certainly 1/A with A the full count (True), certainly
     1/(A - c) with c > 0 (False), or unknown (None); plus A.  Elements have the shape
-    ``1.0 / (A - c(i))`` for i in range(n), the vector optionally flipped."""
-    best = None
+    ``1.0 / (A - c(i))`` for i in range(n), the vector optionally flipped.  Counts accumulated
+    under ``if`` statements arrive as several paths: a path contributes at a position when its
+    branch conditions are not refuted there."""
+    shapes = []
     for p in returning(paths(repo, gen)):
         if any(e.kind == 'loop0' for e in p.events):
             continue
@@ -322,9 +324,36 @@ def norm_full_at(repo: Repo, gen: FunctionInfo, k: int) -> Tuple[Dict[str, Optio
             r = r[1][k]
         elif k != 0:
             raise AnchorError('generator does not return a tuple')
-        best = r
-    if best is None:
+        conds = [(e.data[0], e.data[1]) for e in p.events if e.kind == 'assume']
+        shapes.append(_norm_shape(r, conds) + (conds,))
+    if not shapes:
         raise AnchorError('generator has no usable return path')
+    flips, A, idx, n = shapes[0][:4]
+    for sh in shapes[1:]:
+        if sh[:4] != (flips, A, idx, n):
+            raise AnchorError('return paths build the constant differently')
+    out = {}
+    for pos, i in ((S, ('const', 0)), (E, ('bin', '-', n, ('const', 1)))):
+        env = {idx: i} if idx is not None else {}
+        res = []
+        for sh in shapes:
+            c, conds = sh[4], sh[5]
+            if any(poly.simplify_truth(poly.substitute(a, env), env) is (not pol)
+                   for a, pol in conds):
+                continue            # this branch combination cannot occur at that position
+            res.append(_deficit_zero(c, env))
+        if res and all(r is True for r in res):
+            out[pos] = True
+        elif res and all(r is False for r in res):
+            out[pos] = False
+        else:
+            out[pos] = None
+    if flips % 2:
+        out = {S: out[E], E: out[S]}
+    return out, A
+
+
+def _norm_shape(best: Term, conds=()):
     t, flips = best, 0
     ev = AnchorEval({})
     while True:
@@ -351,7 +380,11 @@ def norm_full_at(repo: Repo, gen: FunctionInfo, k: int) -> Tuple[Dict[str, Optio
         n = ev.range_len(it)
     elif t[0] == 'list' and len(t[1]) == 1:
         e = t[1][0]
-        elems = sorted(ev.elems_of(e), key=lambda x: x[2] if len(x) > 2 else ())
+        elems = ev.elems_of(e)
+        for a, _pol in conds:
+            elems += [x for x in ev.elems_of(a) if x not in elems]
+        elems = sorted([x for x in elems if is_call(x[1], 'builtins.range')],
+                       key=lambda x: x[2] if len(x) > 2 else ())
         if not elems:
             raise AnchorError('constant does not depend on the position')
         idx = elems[0]                  # outermost loop variable (lexically first)
@@ -367,9 +400,4 @@ def norm_full_at(repo: Repo, gen: FunctionInfo, k: int) -> Tuple[Dict[str, Optio
         A, c = den, ('const', 0)
     if idx is not None and mentions(A, lambda x: x == idx):
         raise AnchorError(f'full count {show(A)} depends on the position')
-    out = {}
-    for pos, i in ((S, ('const', 0)), (E, ('bin', '-', n, ('const', 1)))):
-        out[pos] = _deficit_zero(c, {idx: i} if idx is not None else {})
-    if flips % 2:
-        out = {S: out[E], E: out[S]}
-    return out, A
+    return flips, A, idx, n, c
